@@ -883,11 +883,11 @@ func phasesFor(c *mc.Ctx) []alphabet {
 	case c.Prop == "C25" && c.Quick():
 		phases = []alphabet{base(6, deep25...), tiny(10)}
 	case c.Prop == "C25":
-		phases = []alphabet{base(8, deep25...), base(4, full("a"), full("b"), full("c")), tiny(12)}
+		phases = []alphabet{base(8, deep25...), base(4, full("a"), full("b"), full("c")), tiny(16)}
 	case c.Quick():
 		phases = []alphabet{base(6, small26...), tiny(10)}
 	default:
-		phases = []alphabet{base(8, small26...), base(5, large26...), tiny(12)}
+		phases = []alphabet{base(8, small26...), base(5, large26...), tiny(16)}
 	}
 	if v, err := strconv.Atoi(os.Getenv("VERIF_TXC_DEPTH")); err == nil && v > 0 {
 		phases[0].depth = v // development aid: measure other depths (first phase only)
@@ -1073,7 +1073,11 @@ func main() {
 			c.Set(fmt.Sprintf("bfs_phase_%d", i+1), map[string]interface{}{"menu_size": len(menu), "depth_reached": st.Depth - 1,
 				"states": st.States, "transitions": st.Transitions, "fixpoint": st.Fixpoint})
 			rules = append(rules, fmt.Sprintf("BFS %d: %s", i+1, a.String()))
-			bounds = append(bounds, fmt.Sprintf("BFS %d: all operation sequences of length <= %d after choosing NumChunks (state matching on the canonical pool state)", i+1, a.depth))
+			if st.Fixpoint {
+				bounds = append(bounds, fmt.Sprintf("BFS %d: fixpoint after %d operations - the complete reachable state space of this alphabet (%d states)", i+1, st.Depth-1, st.States))
+			} else {
+				bounds = append(bounds, fmt.Sprintf("BFS %d: all operation sequences of length <= %d after choosing NumChunks (state matching on the canonical pool state)", i+1, a.depth))
+			}
 		}
 		w.flushKnown()
 		rule, bound := strings.Join(rules, " || "), strings.Join(bounds, "; ")
